@@ -269,6 +269,8 @@ class ThreadRun:
         self.frames = []  # harness view of the block stack: dicts(kind, args, fid)
         self.vars = {}
         self.pending = None
+        self.gen_pending = {}
+        self.current_next = None
         self.body_runs = 0
 
 
@@ -415,6 +417,8 @@ class Interp:
             if self.observer is not None and hasattr(self.observer, "entered"):
                 self.observer.entered(self, run, op, path)
             self._run_body(op["body"], op.get("exit", "ret"), path)
+            if self.observer is not None and hasattr(self.observer, "leaving"):
+                self.observer.leaving(self, run, op, path)
             rv = op.get("ret")
             return None if rv is None else build_value(rv, run.frames[-1])
         finally:
@@ -422,8 +426,7 @@ class Interp:
 
     def gen_body(self, fid, args):
         run = self.run
-        op, path = run.pending
-        run.pending = None
+        op, path = run.gen_pending.pop(run.current_next)
         run.body_runs += 1
         seg = []
         n = 0
@@ -477,6 +480,8 @@ class Interp:
             out = {"ret": type(res).__name__}
             if op.get("store"):
                 run.vars[op["store"]] = res
+                if kind == "gen":
+                    run.gen_pending[op["store"]] = (op, path)
         except BaseException as e:
             out = exc_outcome(e)
         run.pending = None
@@ -487,6 +492,7 @@ class Interp:
         g = self.run.vars.get(op["var"])
         if g is None:
             return "novar"
+        self.run.current_next = op["var"]
         try:
             return {"yielded": next(g)}
         except StopIteration:
